@@ -46,7 +46,7 @@ COMPONENTS = {
     "stub": ["all user callables (objective, gradient, callback, update, scaler, ftarget, gtol)", "exception injection plan", "line tracer"],
 }
 ASSUMPTIONS = []
-PLAN_TIMEOUT = 300
+PLAN_TIMEOUT = 600
 ACTORS = ("fun", "jac", "callback", "update", "scaler", "ftarget", "gtol")
 OTHER_TYPES = [t for t in EXC_TYPES if t != "InjectedError"]
 
